@@ -68,6 +68,8 @@ BASES = [
         {"op": "apply", "pool": 0, "num": 1, "args": 0, "fname": "x", "marker": True, "gname": "zz", "bodies": [{"pre": [["y", 1]]}]},
         {"op": "cancel_group", "pool": 0, "sel": ["name", "zz"]}]}], ["f"], Y(1)]}], ecb={"async": True, "y": 1}),
         _apply(0, 1, bodies=[{"pre": [Y(2)]}])]},
+    # 17: N=1, more than ten task starts and a sibling request that needs the single slot afterwards
+    {"pools": [{"cls": "T", "size": 1}], "steps": [_apply(0, 11, bodies=[{"pre": [Y(1)]}]), _apply(0, 2, bodies=[{"pre": [Y(1)]}], ecb={})]},
     # 16: N=3, gather_and_close() is already waiting for gated workers; cancel callbacks are slow (async, gated)
     {"pools": [{"cls": "T", "size": 3}], "steps": [_apply(0, 3, bodies=[{"pre": [G, Y(1)]}, {"pre": [Y(4)]}], ecb={}, ccb={"async": True, "gate": True}),
                                                      {"op": "y", "k": 2}, {"op": "gac", "pool": 0, "rex": True, "waiters": 1},
@@ -94,6 +96,9 @@ OPS = {
     "apply1": {"op": "apply", "pool": 0, "num": 1, "args": 1, "fname": "x", "marker": True, "bodies": [{"pre": [["y", 1]]}]},
     "start1": {"op": "start", "pool": 0, "num": 1},
     "set_same": {"op": "set_size", "pool": 0, "v": "same"},
+    "cancel_all_msg": {"op": "cancel_all", "pool": 0, "msg": "bye"},
+    "cancel_group0_msg": {"op": "cancel_group", "pool": 0, "sel": ["live", 0], "msg": "stop it"},
+    "cancel_then_close": {"op": "seq", "steps": [{"op": "cancel_all", "pool": 0, "msg": "shutting down"}, {"op": "gac", "pool": 0, "rex": True, "waiters": 1}]},
     "regroup": {"op": "seq", "steps": [{"op": "cancel_group", "pool": 0, "sel": ["live", 0]},
                                        {"op": "apply", "pool": 0, "num": 2, "args": 1, "fname": "w", "marker": True, "gname": ["reuse_last"], "bodies": [{"pre": [["y", 1]]}]}]},
     "regroup_map": {"op": "seq", "steps": [{"op": "cancel_group", "pool": 0, "sel": ["live", 1]},
@@ -102,13 +107,13 @@ OPS = {
 
 SPECS = {
     "C01": ["cancel0", "cancel_group0", "cancel_all", "stop1", "flush", "apply1", "start1", "set_same"],
-    "C02": ["cancel0", "cancel_last", "cancel2", "cancel_group0", "cancel_group1", "cancel_all", "stop1", "stop_all", "flush"],
-    "C03": ["cancel0", "cancel_twice", "cancel_group0", "cancel_all", "stop2", "flush"],
+    "C02": ["cancel0", "cancel_last", "cancel2", "cancel_group0", "cancel_group1", "cancel_all", "stop1", "stop_all", "flush", "cancel_then_close"],
+    "C03": ["cancel0", "cancel_twice", "cancel_group0", "cancel_all", "stop2", "flush", "cancel_all_msg", "cancel_group0_msg", "cancel_then_close"],
     "C04": ["lock", "gac", "cancel0", "cancel_group1", "regroup"],
     "C05": ["cancel0", "cancel_last", "flush", "apply1"],
     "C06": ["cancel0", "cancel2", "cancel_mixed", "cancel_twice", "cancel_last"],
-    "C07": ["cancel_group0", "cancel_group1", "cancel_all", "regroup", "regroup_map"],
-    "C08": ["gac", "regroup"],
+    "C07": ["cancel_group0", "cancel_group1", "cancel_all", "regroup", "regroup_map", "cancel_group0_msg", "cancel_all_msg"],
+    "C08": ["gac", "regroup", "cancel_then_close"],
     "C10": ["cancel_group0", "apply1", "start1", "regroup", "regroup_map"],
     "C11": ["flush", "cancel0", "apply1", "start1"],
     "C12": ["flush_raise", "flush", "gac"],
@@ -117,7 +122,7 @@ SPECS = {
 }
 
 _cache = {}
-QUICK_CAP = 8000  # larger than every table: the quick tier runs the complete table of single placements as well
+QUICK_CAP = 20000  # larger than every table: the quick tier runs the complete table of single placements as well
 
 
 def _applicable(base, opname):
